@@ -3,6 +3,7 @@
 package agessh
 
 import (
+	"bytes"
 	"crypto"
 	"crypto/ed25519"
 	"crypto/rand"
@@ -432,4 +433,61 @@ func compareSSHStanza(pub, mont, fileKey []byte, label bool) {
 		V.Assert(st[0].Args[1] == base64.RawStdEncoding.EncodeToString(share), "ssh-ed25519 share differs from the format")
 	}
 	V.Assert(string(st[0].Body) == string(body), "ssh-ed25519 stanza body differs from the format")
+}
+
+// ---------------------------------------------------------------------------
+// C01 with SSH Ed25519 recipients in mixes with native ones
+
+// Harness_C01_ssh_mix: files to an SSH Ed25519 recipient alone or together with
+// a native X25519 recipient (either order) decrypt with the SSH identity and
+// with the native identity, each also behind a non-matching identity, to the
+// exact plaintext followed by a clean end of stream.
+func Harness_C01_ssh_mix() {
+	installSSHModel()
+	V.InstallTape()
+	sid, err := NewEd25519Identity(fixedKeys[0])
+	V.Assert(err == nil, "NewEd25519Identity failed")
+	stranger, _ := NewEd25519Identity(fixedKeys[1])
+	xid, xerr := age.GenerateX25519Identity()
+	V.Assert(xerr == nil, "GenerateX25519Identity failed")
+	if err != nil || xerr != nil {
+		return
+	}
+	var recips []age.Recipient
+	switch V.Int("recips", 0, 2) {
+	case 0:
+		recips = []age.Recipient{sid.Recipient()}
+	case 1:
+		recips = []age.Recipient{sid.Recipient(), xid.Recipient()}
+	case 2:
+		recips = []age.Recipient{xid.Recipient(), sid.Recipient()}
+	}
+	P := V.Bytes("P", V.Int("n", 0, V.Param("maxn", 3)))
+	var file bytes.Buffer
+	w, eerr := age.Encrypt(&file, recips...)
+	V.Assume(eerr == nil) // A6: real keys are not low-order points
+	w.Write(P)
+	V.Assert(w.Close() == nil, "Close failed")
+	V.Reach("encrypted")
+	var ids []age.Identity
+	switch V.Int("ids", 0, 3) {
+	case 0:
+		ids = []age.Identity{sid}
+	case 1:
+		ids = []age.Identity{stranger, sid}
+	case 2:
+		V.Assume(len(recips) == 2)
+		ids = []age.Identity{xid}
+	case 3:
+		V.Assume(len(recips) == 2)
+		ids = []age.Identity{stranger, xid}
+	}
+	r, derr := age.Decrypt(bytes.NewReader(file.Bytes()), ids...)
+	V.Assert(derr == nil, "a listed recipient cannot decrypt the file")
+	if derr != nil {
+		return
+	}
+	out, rerr := io.ReadAll(r)
+	V.Assert(rerr == nil && bytes.Equal(out, P), "decrypted bytes differ from the plaintext")
+	V.Reach("decrypted")
 }
